@@ -261,8 +261,8 @@ func (srv *Srv) open(req *SrvReq) {
 }
 
 func (srv *Srv) openPost(req *SrvReq) {
-	if req.Fid != nil {
-		req.Fid.opened = req.Rc != nil && req.Rc.Type == Ropen
+	if req.Fid != nil && req.Rc != nil && req.Rc.Type == Ropen {
+		req.Fid.opened = true
 	}
 }
 
